@@ -20,10 +20,16 @@ CLAIMS["C09"] = (
     "interval specification for every key and every range table (loop invariants, unbounded); keys outside every interval are rejected. "
     "Calendar rules: getNumYear/getNumYearMonth/getNumYearMonthDay are panic-free for every key, return the period read from the 10-character "
     "spelling, and unix-timestamp keys and their 'YYYY-MM-DD' spelling are placed identically (over trusted contracts for time.Unix/Format/Year "
-    "and strconv.Atoi). Acceptance of malformed string keys is a recorded known finding (residual obligations verified).",
+    "and strconv.Atoi). Acceptance of malformed string keys is a recorded known finding (residual obligations verified). Period lists of a "
+    "date_range entry: ParseYearRange returns the single year or every year from the earlier to the later end, in order, each once; "
+    "ParseMonthRange every month of the span in order with the year rolling over after December (element k is month lo+k, loop invariant "
+    "over a month clock), also for descending spans (ends swapped); both reject ends of the wrong length (year spans: fixed in /repo, "
+    "ea1c69a).",
     "Trusted: strconv.ParseInt/Atoi, time.Unix/Format/Year as uninterpreted functions with the stated relations; hack.String; configuration size "
-    "bounds in ParseNumSharding's precondition (<=1024 slices, <=2^20 tables each, row limit < 2^31); ParseYear/Month/DayRange (time/strings "
-    "library loops) are not under contract.",
+    "bounds in ParseNumSharding's precondition (<=1024 slices, <=2^20 tables each, row limit < 2^31); strings.SplitN as uninterpreted "
+    "parts, byte-wise string order as an uninterpreted strict order, Atoi of <= 4 characters is within -999..9999; the month clause is "
+    "stated for spans whose first month is 1..12 (month numbers are not validated by the parser); ParseDayRange (time.Parse / Add / "
+    "Format loop) is not under contract.",
     "DESIGN.md section 4, C09")
 
 CLAIMS["C01"] = (
@@ -60,10 +66,13 @@ CLAIMS["C25"] = (
     "operation); lemma rrStep: consecutive calls visit consecutive queue positions mod len(Q) while the counter does not wrap (so any len(Q) "
     "consecutive selections visit every queue position once); the wrap case is a recorded known finding (lemma rrStepAcrossWrap fails). "
     "getNodeFromBalancer returns only nodes that are up and are candidates of the given balancer; GetSlaveConn consults only the local "
-    "balancer under forced-local reads, local then remote under preferred-local, the global one otherwise (call-site obligations).",
-    "Trusted: sync/atomic as sequential cell operations, DBInfo mutex; NOT under contract: newBalancer's queue construction (gcd, weights, "
-    "rand.Shuffle) and getIndicesAndWeights' datacenter filter, so 'each replica exactly its normalized weight times' is decided only up to "
-    "'the queue is what newBalancer built'; the pigeonhole step from rrStep to the window statement is a meta-argument.",
+    "balancer under forced-local reads, local then remote under preferred-local, the global one otherwise (call-site obligations). "
+    "gcd / gcd$1 return a positive common divisor of all weights (Euclid loop invariant over divisibility); newBalancer's queue lists every "
+    "candidate at least once and nothing but candidates (nested loop invariants; the shuffle is a trusted permutation).",
+    "Trusted: sync/atomic as sequential cell operations, DBInfo mutex, rand.Shuffle permutes, divisibility axioms (divTrans, divGE: "
+    "nonlinear). NOT proved: that candidate k occurs EXACTLY weight_k/gcd times in the queue (only 'at least once, candidates only', and "
+    "that the divisor is common -- not that it is the greatest); getIndicesAndWeights' datacenter filter is not under contract; the "
+    "pigeonhole step from rrStep to the window statement is a meta-argument.",
     "DESIGN.md section 4, C25")
 
 CLAIMS["C11"] = (
@@ -71,10 +80,15 @@ CLAIMS["C11"] = (
     "min(remaining, 2^24-1), the running sequence id, exactly the next payload bytes), an empty terminating frame is written exactly after a "
     "payload that is a positive multiple of 2^24-1, and on success the sequence id has advanced by len/MAX+1 (ghost frame counter, loop "
     "invariant, unbounded payload). Reader: readHeaderFrom accepts a frame only with the expected sequence id (also for empty frames), "
-    "advances it by one and returns the 24-bit length; readOnePacket consumes exactly one frame.",
-    "Trusted: io.ReadFull fills the buffer or fails, io.Writer.Write, bytes.Buffer (NewBuffer/Write/Bytes contracts). NOT under contract: the "
-    "reassembly loops of readPacket / ReadEphemeralPacket(Direct) (concatenation of frame payloads, pooled buffers), so 'the reader "
-    "reassembles the original payload' is decided per frame only.",
+    "advances it by one and returns the 24-bit length; readOnePacket consumes exactly one frame and returns a buffer of exactly the "
+    "announced length. Reassembly (readPacket, ReadEphemeralPacket incl. the pooled-buffer path; loop invariants, any number of frames): "
+    "frames are consumed in order up to and including the first one shorter than 2^24-1 bytes, the packet's length is the sum of the "
+    "announced lengths (every frame but the last is full, the last is shorter), and the expected sequence id has advanced by the number of "
+    "frames consumed (ghost frame counters).",
+    "Trusted: io.ReadFull fills the buffer or fails, io.Writer.Write, bytes.Buffer (NewBuffer/Write/Bytes contracts), bucketpool.Get returns "
+    "a buffer of the requested length. The BYTES of a frame body are whatever io.ReadFull delivered: that the reassembled packet is the "
+    "concatenation of the bodies rests on the engine's append semantics (prefix preserved), it is not stated as a sequence equality. NOT "
+    "under contract: ReadEphemeralPacketDirect, the ephemeral write path (StartEphemeralPacket / writeEphemeralPacket).",
     "DESIGN.md section 4, C11")
 
 CLAIMS["C16"] = (
